@@ -68,6 +68,15 @@ CHECKS = {
              "library's own heap blocks are end-fenced too (allocator shim) so internal scratch overruns fault. The "
              "trace spec accepts only: no fault, and result 0 or a correct prefix of at most `capacity` elements.",
         ref="DESIGN.md 4/C13", technique="TLA+ capacity contract + TLC-enumerated scenarios + trace validation with guard pages and fenced heap"),
+    "C14": dict(
+        text="HostileGen.tla builds hostile inputs from the documented wire layouts (every truncation point of valid "
+             "encodings, header fields forced to 0 and huge values, counts beyond the payload, out-of-range indices, "
+             "never-ending unary prefixes, bitmap containers with inconsistent cardinalities); with all 256x12 cases "
+             "of the bounded tagged reader and seeded random strings they are decoded by the real entry points inside "
+             "exact-size guard-page buffers with a fenced, request-recording allocator and a per-call alarm. "
+             "HostileTrace.tla accepts only: no access at/after the declared size, termination, bounded allocation, "
+             "result <= capacity; the bounded tagged reader must equal TaggedGetBounded exactly.",
+        ref="DESIGN.md 4/C14", technique="TLA+-generated hostile inputs + TLC trace validation of a safety contract with guard pages / fenced allocator"),
     "C16": dict(
         text="Every metadata field an encoder reports and every header accessor result is compared by TLC with ground "
              "truth computed in TLA+ from the input values (count, min, max, range, offset width, run count, sum of "
